@@ -512,3 +512,19 @@ def c44(ctx):
                 "and well-formed MathML by pushdown automata over the extracted token sequences, and the SBML round "
                 "trip parse_sbml(sbml(e)) = e on the fragment")
     simple(ctx, "MC_C44", "Trace_C44", floor=0.5)
+
+
+@plan("C42")
+def c42(ctx):
+    ctx.rule = ("TLC enumerates 15 atoms, every one- and two-argument C API function on them and nested combinations, "
+                "built once through the C API only (handles, error codes) and once through the C++ API; container "
+                "histories (all short ones per container, seeded ones of length 6 and 10 over all 33 operations) on a "
+                "CVecBasic, CSetBasic and CMapBasicBasic with values of three equality classes; Expression operators on "
+                "pairs; TLC validates equal results, error codes exactly where C++ throws and of the right class, no "
+                "escaping exception, every container outcome and the final contents against module Containers")
+    simple(ctx, "MC_C42", "Trace_C42", floor=0.5)
+    # container histories from the state machine MC_C42H (invariants TypeOK, Bounded checked in every state)
+    n = 1500 if ctx.thorough else 60
+    hist = ctx.gen("MC_C42H", simulate="num=%d" % n, extra=("-depth", "9"), workers=4)
+    ev2 = ctx.drive("base", hist)
+    ctx.judge(ctx.validate("Trace_C42", ev2, floor=0.5), hist)
